@@ -56,5 +56,6 @@ Step ==
                 /\ bad' = IF \E n \in DOMAIN ev.put \cap DOMAIN H : ev.put[n].k # H[n].k THEN {"Overwrites"} ELSE {}
 Next == Step
 Holds == bad = {}
+Small == [tid |-> tid, i |-> i, bad |-> bad]
 \* every event of every behaviour was consumed (checked by the harness from the number of distinct states)
 =============================================================================
